@@ -176,6 +176,8 @@ def fingerprint(roots, extra=None, skip_attrs=()):
             if o.__dict__:
                 w({k: v for k, v in o.__dict__.items() if k != '__wrapped__'}, depth + 1)
             out.append(')')
+        elif isinstance(o, types.ModuleType):
+            out.append('module:%s' % o.__name__)
         elif isinstance(o, (types.BuiltinFunctionType, types.BuiltinMethodType, type)):
             out.append('named:%s.%s' % (getattr(o, '__module__', ''), getattr(o, '__qualname__', repr(o))))
         elif isinstance(o, weakref.ref):
